@@ -29,6 +29,25 @@ type Case struct {
 	// ICC PCS illuminant as encoded in s15Fixed16); the xyY-constructor checks are skipped for such cases
 	XYZ *[3][3]float32 `json:"xyz,omitempty"`
 	V   [3]float32     `json:"v"` // colour for linearity
+	// After > 0: the case directly follows one request outside the property's domain (a white with a zero, negative
+	// or non-finite component, a chromaticity with y = 0; number After-1 of the list in outside()), whose answer
+	// is ignored
+	After int `json:"after,omitempty"`
+}
+
+func outside(i int) {
+	nan, inf := float32(math.NaN()), float32(math.Inf(1))
+	ws := []ciexyz.Color{{}, {X: nan, Y: 1, Z: 1}, {X: 0.9, Y: 0, Z: 1}, {X: inf, Y: 1, Z: 1}, {X: -0.9, Y: 1, Z: 0.8}, {X: 1, Y: 1, Z: 0}, {X: 3e38, Y: 3e38, Z: 3e38}, {X: 1e-45, Y: 1e-45, Z: 1e-45}}
+	cs := []ciexyy.Color{{X: 0.3, Y: 0, YY: 1}, {X: nan, Y: 0.3, YY: 1}, {X: 0.3, Y: 0.3, YY: 0}, {X: 0, Y: 0, YY: 0}, {X: 0.7, Y: 0.7, YY: 1}, {X: 0.3, Y: 0.3, YY: inf}}
+	ev.Guard(func() {
+		a := ciexyz.AdaptBetweenXYZWhitePoints(ws[i%len(ws)], ciexyz.D65)
+		a.Apply(ciexyz.Color{X: 0.2, Y: 0.3, Z: 0.4})
+		ciexyz.AdaptBetweenXYZWhitePoints(ciexyz.D50, ws[(i/2)%len(ws)])
+	})
+	ev.Guard(func() {
+		ciexyz.AdaptBetweenXYYWhitePoints(cs[i%len(cs)], ciexyy.D50).Apply(ciexyz.Color{X: nan, Y: 1, Z: inf})
+		ciexyz.AdaptBetweenXYYWhitePoints(ciexyy.D65, cs[(i/3)%len(cs)])
+	})
 }
 
 func (c Case) lum(i int) float32 {
@@ -110,6 +129,9 @@ func xyY(w XY) ciexyy.Color { return ciexyy.Color{X: w[0], Y: w[1], YY: 1} }
 func xyYL(w XY, l float32) ciexyy.Color { return ciexyy.Color{X: w[0], Y: w[1], YY: l} }
 
 func check(c Case) (kind, what string) {
+	if c.After > 0 {
+		outside(c.After - 1)
+	}
 	var kindOut, whatOut string
 	pn, msg := ev.Guard(func() { kindOut, whatOut = checkInner(c) })
 	if pn {
@@ -276,7 +298,7 @@ func TestC12(t *testing.T) {
 		fmt.Println("REPLAY case passed:", c)
 		return
 	}
-	ev.Rule("white points (chromaticity x luminance Y; Y = 1 and, for a fifth of the grid and half of the rapid cases, Y in [0.2,2], including pairs of equal chromaticity and different luminance): the 11 CIE standard illuminants (all ordered pairs and triples), daylight/Planckian locus points for generated CCT in [2000,25000] K with a small offset, and a chromaticity grid over [0.2,0.5]^2 (16x16 sub-grid squared in quick, 64x64 squared in thorough) restricted to whites whose three Bradford cone responses are at least 0.02*Y away from zero (negative responses of saturated whites included); colours: rapid float32 XYZ in [-0.5,2]^3. non-trivial = distinct case with A != B (and three distinct whites for the composition law)")
+	ev.Rule("white points (chromaticity x luminance Y; Y = 1 and, for a fifth of the grid and half of the rapid cases, Y in [0.2,2], including pairs of equal chromaticity and different luminance): the 11 CIE standard illuminants (all ordered pairs and triples), daylight/Planckian locus points for generated CCT in [2000,25000] K with a small offset, and a chromaticity grid over [0.2,0.5]^2 (16x16 sub-grid squared in quick, 64x64 squared in thorough) restricted to whites whose three Bradford cone responses are at least 0.02*Y away from zero (negative responses of saturated whites included); colours: rapid float32 XYZ in [-0.5,2]^3. an eighth of the rapid cases directly follow a request outside the domain (non-finite or degenerate arguments) whose answer is ignored. non-trivial = distinct case with A != B (and three distinct whites for the composition law)")
 	ev.Assume("internal/ref Bradford matrix transcribed from the literature; whites with a cone response within 0.02*Y of zero are excluded because the adaptation ratio is then meaningless (count reported)")
 	table["LPS"] = XY{0.5692, 0.43}    // low-pressure sodium
 	table["YG"] = XY{0.45, 0.54}       // saturated yellow-green
@@ -436,6 +458,9 @@ func TestC12(t *testing.T) {
 		}
 		for i := range c.V {
 			c.V[i] = rapid.Float32Range(-0.5, 2).Draw(rt, "v")
+		}
+		if rapid.IntRange(0, 7).Draw(rt, "afteroutside") == 0 {
+			c.After = rapid.IntRange(1, 24).Draw(rt, "outside")
 		}
 		if !valid(c.A) || !valid(c.B) || !valid(c.C) {
 			rej++
